@@ -11,6 +11,7 @@ pub mod t_equal;
 pub mod t_model;
 pub mod t_nodemap;
 pub mod t_names;
+pub mod g_roundtrip;
 
 pub type Harness = fn();
 pub fn registry() -> Vec<(&'static str, Harness)> {
@@ -23,5 +24,6 @@ pub fn registry() -> Vec<(&'static str, Harness)> {
     t_model::register(&mut v);
     t_nodemap::register(&mut v);
     t_names::register(&mut v);
+    g_roundtrip::register(&mut v);
     v
 }
